@@ -41,4 +41,4 @@ tot={r:[0,0] for r in (1,2,3,4,5)}
 for sid,needs,first,now,suite in rows:
     tot[rnd(sid)][0]+=1
     if first.startswith("DETECTED"): tot[rnd(sid)][1]+=1
-out.write("Detected by the checks as they stood / changes: "+", ".join("round %d: %d/%d"%(r,tot[r][1],tot[r][0]) for r in tot)+". Every miss led to a stronger check (see the `first run` column and DESIGN.md section 13); all are detected now except C11b (thorough-tier configuration only) and C12f (a provider call spanning a refresh tick is not modelled).\n")
+out.write("Detected by the checks as they stood / changes: "+", ".join("round %d: %d/%d"%(r,tot[r][1],tot[r][0]) for r in tot)+". Every miss led to a stronger check (see the `first run` column and DESIGN.md section 13); all are detected now except C11b (thorough-tier configuration only).\n")
